@@ -85,6 +85,24 @@ def build_traces(path, tier, seed):
         idx = rng.choice(s1.size, size=min(s1.size, 40), replace=False)
         add({"kind": "lin", "f": enc(f), "g": enc(g), "x": enc_cseq(np.ravel(s1)[idx]), "y": enc_cseq(np.ravel(sy)[idx]), "z": enc_cseq(np.ravel(sz)[idx])},
             {"kind": "lin", "n": n, "f": f, "g": g})
+    # two records whose raw BYTES coincide (signed / unsigned counts; an int32 record read as int64 has half the length) transformed
+    # one after the other by the same implementation: each transform is that of its own values and length
+    for j in range(4 if tier == "quick" else 16):
+        n = int(rng.integers(4, 17))
+        a_, b_ = gen.byte_twins(rng, n)
+        if len(b_) < 4:
+            a_, b_ = gen.byte_twins(np.random.default_rng(j), 12)
+        fn = [stockwell.transform, stockwell.transform_w_scipy_fft][j % 2]
+        for rec_ in (a_, b_):
+            if len(rec_) < 4:
+                continue
+            s1 = np.asarray(fn(rec_))
+            s2 = np.asarray([stockwell.transform_w_scipy_fft, stockwell.transform][j % 2](np.array(rec_)))
+            if s2.shape != s1.shape:
+                s2 = np.full(s1.shape, np.nan + 0j)
+            xf = np.asarray(rec_, dtype=float)
+            add({"kind": "full", "x": enc_seq(xf), "rows": int(s1.shape[0]), "cols": int(s1.shape[1]), "s": [enc_cseq(r) for r in s1], "s2": [enc_cseq(r) for r in s2]},
+                {"kind": "full", "n": len(xf), "shape": "byte twins (%s after %s)" % (rec_.dtype, a_.dtype), "transform_shape": list(s1.shape)})
     big = [100, 200, 257, 1024] if tier == "quick" else [200, 256, 400, 511, 512, 777, 1000, 1023, 1024]
     # lengths whose half is a multiple of a power of two, or one more (the frequency rows may be processed in blocks)
     edge = [2 * (m * 2 ** e + r) + p for e in (5, 6, 7, 8) for m in (1, 2, 3) for r in (0, 1) for p in (0, 1) if 2 * (m * 2 ** e + r) + p <= 1024]
